@@ -11,9 +11,10 @@ Translated, statement by statement from the ast of /repo's working tree:
 NOT translated: argument normalisation (rho / single node / None — `InitArgs`, C05), the conversion to arrays and the
 construction of `Simulation_Investigation`.
 
-Representation: the mutable locals form a record `Loc`; a statement is a step in `PyDM.DM` (random tape + set-order
-oracle + scripted callback answers, `Gen/PyDM.lean`); `for` is `List.foldlM`, `while` a recursion on fuel.  A Python
-`set` is a duplicate-free list; `for x in <set>` iterates in the order given by the oracle (`PyDM.iterSet`).
+Representation: the mutable locals form a record `Loc`; a statement is a step in `PyDM.DM` (random tape +
+scripted callback answers, `Gen/PyDM.lean`); `for` is `List.foldlM`, `while` a recursion on fuel.  A Python `set` is
+a duplicate-free list in insertion order; `for x in <set>` iterates over `P.iter <set>` (a parameter: CPython's order is
+a function of the insertion history; the driver supplies a model of CPython's table, the theorems quantify over it).
 Anything outside the supported subset raises Unsupported — a failed translation is an undischarged obligation.
 """
 import ast, os, sys, hashlib
@@ -245,9 +246,7 @@ class DFn:
             p, seq, k = self.expr(st.iter, ind)
             var = st.target.id
             if k == "set":
-                it = self.tmp("it")
-                p = p + [f"{ind}let {it} ← PyDM.iterSet {seq}"]
-                seq = it
+                seq = f"(P.iter {seq})"
             elif k != "nodes":
                 raise Unsupported("for over " + k)
             saved = dict(self.temps)
